@@ -2,6 +2,7 @@ package props
 
 import (
 	"go/token"
+	"go/types"
 
 	"golang.org/x/tools/go/ssa"
 
@@ -169,6 +170,31 @@ func c17() []*Ob {
 				}
 				if n == 0 {
 					c.Undecided("prov:Filter:offsets", fn.Pos(), "cannot find the per-document token offset table in Filter")
+				}
+			}},
+		{Prop: "C17", ID: "C17.5", Engine: "ALIAS", Floor: 1,
+			Desc: "the collector's columns are not rewritten behind its back: DocsPositions.SetMultiple builds its result in memory of its own — its ids and pos parameters (collector.IDs / Positions, which appendWorker goes on using for the length test and for Filter) reach no mutating sink (element store, append into the parameter's array)",
+			Check: func(c *Ctx) {
+				fn := c.Fn("(*frac.DocsPositions).SetMultiple")
+				if fn == nil {
+					return
+				}
+				n := 0
+				for _, p := range fn.Params[1:] {
+					if _, ok := p.Type().Underlying().(*types.Slice); !ok {
+						continue
+					}
+					n++
+					sinks := c.P.MutatingSinks(p, 3)
+					if len(sinks) == 0 {
+						c.Site(fn.Pos(), "parameter %s is only read", p.Name())
+					}
+					for _, sk := range sinks {
+						c.Violation("alias:SetMultiple:"+p.Name(), sk.Instr.Pos(), "DocsPositions.SetMultiple writes through its %s parameter (%s): the caller's collector column is compacted in place while the collector still uses it, so Filter keeps a new document in a dropped duplicate's slot and it is indexed under that document's tokens", p.Name(), sk.How)
+					}
+				}
+				if n == 0 {
+					c.Undecided("alias:SetMultiple:params", fn.Pos(), "SetMultiple has no slice parameters any more")
 				}
 			}},
 		{Prop: "C17", ID: "C17.3", Engine: "LOCK+DOM", Floor: 1,
